@@ -15,15 +15,6 @@ import "time"
 // request timeout; native replay = the real context package with RequestTimeout
 // shortened to 50 ms and failing Gets sleeping 60 ms.  Uses the model etcd of H15f.
 
-// a failing Get runs into its request timeout
-func verifRTimeOut() {
-	if verifSymbolic() {
-		verifRClock += RequestTimeout
-	} else {
-		time.Sleep(RequestTimeout + 10*time.Millisecond)
-	}
-}
-
 func Verif_C15_load_retry() {
 	oldTimeout := RequestTimeout
 	if !verifSymbolic() {
